@@ -14,6 +14,7 @@ import (
 	"github.com/rqlite/rqlite/v10/command/proto"
 	"github.com/rqlite/rqlite/v10/internal/rarchive/flate"
 	"github.com/rqlite/rqlite/v10/internal/rsync"
+	"github.com/rqlite/rqlite/v10/internal/vhook"
 	"github.com/rqlite/rqlite/v10/queue"
 )
 
@@ -243,6 +244,7 @@ func NewService(nodeID, dir string, clstr Cluster, cfg *Config) (*Service, error
 		higHWM -= 1
 	}
 	srv.highWatermark.Store(higHWM)
+	vhook.Trace(nodeID, "cdc.open", "hwm", higHWM)
 
 	return srv, nil
 }
@@ -397,6 +399,7 @@ func (s *Service) mainLoop() {
 			if len(req.Objects) == 1 && req.Objects[0].Flush {
 				// Nothing but a flush request, short-ciruit out.
 				s.flushRx.Add(1)
+				vhook.Trace(s.nodeID, "cdc.batch", "key", 0, "n", 1, "flushonly", true)
 				req.Close()
 				break
 			}
@@ -425,6 +428,7 @@ func (s *Service) mainLoop() {
 				continue
 			}
 
+			vhook.Trace(s.nodeID, "cdc.batch", "key", hiIdx, "n", len(req.Objects), "flushonly", false)
 			if err := s.fifo.Enqueue(&Event{Index: hiIdx, Data: compressedData}); err != nil {
 				s.logger.Printf("error writing batch to FIFO: %v", err)
 			}
@@ -454,8 +458,10 @@ func (s *Service) writeToBatcher() {
 				// but this node hasn't even had the event generated by its underlying
 				// database yet.
 				stats.Add(numBatcherWriteIgnored, 1)
+				vhook.Trace(s.nodeID, "cdc.in", "idx", o.Index, "ignored", true)
 				continue
 			}
+			vhook.Trace(s.nodeID, "cdc.in", "idx", o.Index, "ignored", false)
 			if _, err := s.batcher.WriteOne(o, nil); err != nil {
 				s.logger.Printf("error writing CDC events to batcher: %v", err)
 			} else {
@@ -466,6 +472,7 @@ func (s *Service) writeToBatcher() {
 
 		case ch := <-s.snapshotCh:
 			stats.Add(numSnapshotSync, 1)
+			vhook.Trace(s.nodeID, "cdc.sync", "phase", "begin")
 			evg := &proto.CDCIndexedEventGroup{
 				Flush: true,
 			}
@@ -478,6 +485,7 @@ func (s *Service) writeToBatcher() {
 			s.batcher.Flush()
 			select {
 			case <-fc: // Wait for CDC to write to BoltDB.
+				vhook.Trace(s.nodeID, "cdc.sync", "phase", "flushed")
 			case <-s.done: // Or detect we're shutting down.
 			}
 			close(ch) // Snapshotting can proceed now.
@@ -495,6 +503,8 @@ func (s *Service) leaderLoop() (chan struct{}, chan struct{}) {
 
 	go func() {
 		defer close(done)
+		vhook.Trace(s.nodeID, "cdc.lead", "is", true)
+		defer vhook.Trace(s.nodeID, "cdc.lead", "is", false)
 
 		// Start periodic high watermark update handling
 		hwmStop, hwmDone := s.leaderHWMLoop()
@@ -520,8 +530,10 @@ func (s *Service) leaderLoop() (chan struct{}, chan struct{}) {
 					// but this node hasn't even had the event generated by its underlying
 					// database yet.
 					stats.Add(numHWMIgnored, 1)
+					vhook.Trace(s.nodeID, "cdc.take", "key", ev.Index, "skipped", true)
 					continue
 				}
+				vhook.Trace(s.nodeID, "cdc.take", "key", ev.Index, "skipped", false)
 
 				// Decompress the data read from FIFO into a byte slice. We need to do this
 				// so the sink can handle the request properly.
@@ -544,6 +556,7 @@ func (s *Service) leaderLoop() (chan struct{}, chan struct{}) {
 						break
 					}
 					stats.Add(numEventTxFailed, 1)
+					vhook.Trace(s.nodeID, "cdc.sent", "key", ev.Index, "ok", false, "attempt", nAttempts)
 
 					if s.transmitMaxRetries != retryForever && nAttempts == s.transmitMaxRetries {
 						s.logger.Printf("failed to send request to endpoint after %d retries, last error: %v", nAttempts, err)
@@ -573,6 +586,8 @@ func (s *Service) leaderLoop() (chan struct{}, chan struct{}) {
 				if sentOK {
 					s.highWatermark.Store(ev.Index)
 					stats.Add(numEventsTxOK, 1)
+					vhook.Trace(s.nodeID, "cdc.sent", "key", ev.Index, "ok", true, "attempt", nAttempts)
+					vhook.Trace(s.nodeID, "cdc.hwm", "v", ev.Index, "role", "leader")
 				}
 			}
 		}
@@ -607,6 +622,7 @@ func (s *Service) leaderHWMLoop() (chan struct{}, chan struct{}) {
 				// hasn't advanced since the last time. This ensures that
 				// followers get the update even if there are no new events,
 				// or nodes that join the cluster get the current HWM.
+				vhook.Trace(s.nodeID, "cdc.bcast", "v", hwm)
 				if err := s.clstr.BroadcastHighWatermark(hwm); err != nil {
 					s.logger.Printf("error broadcasting high watermark to Cluster: %v", err)
 				}
@@ -620,6 +636,7 @@ func (s *Service) leaderHWMLoop() (chan struct{}, chan struct{}) {
 					s.logger.Printf("error deleting events up to high watermark from FIFO: %v", err)
 				}
 				s.hwmLeaderUpdated.Add(1)
+				vhook.Trace(s.nodeID, "cdc.prune", "v", hwm, "role", "leader")
 				hwmPersisted = hwm
 			}
 		}
@@ -653,6 +670,7 @@ func (s *Service) followerLoop() (chan struct{}, chan struct{}) {
 				}
 				hwmPersisted = hwm
 				s.highWatermark.Store(hwm)
+				vhook.Trace(s.nodeID, "cdc.hwm", "v", hwm, "role", "follower")
 				s.hwmFollowerUpdated.Add(1)
 			}
 		}
